@@ -181,6 +181,41 @@ theorem excess_digits_rounded_witness :
   revert this
   decide
 
+/-- `Decimal::rescale` never leaves a scale above the requested one… -/
+theorem rescale_scale_le (d : Dec) (new : Nat) : (rescale d new).scale ≤ new := by
+  unfold rescale
+  by_cases h1 : d.scale = new
+  · simp [h1]
+  · by_cases h2 : d.mant = 0
+    · simp only [h1, h2, if_false, if_true]
+      unfold MAX_SCALE
+      split
+      · exact Nat.le_refl _
+      · show 28 ≤ new
+        omega
+    · simp only [h1, h2, if_false]
+      by_cases h3 : d.scale > new
+      · simp only [h3, if_true]
+        split <;> exact Nat.le_refl _
+      · simp only [h3, if_false]
+        exact Nat.sub_le _ _
+
+/-- …so the `Ordering::Greater => "invalid scale"` branch of `rescale_to_mantissa` is dead code:
+the error kind `Scale` is never produced (the generator statistics show the other error branches
+— `TooBig` by power overflow, `TooBig` by product overflow, `Range` negative, `Range` too large —
+all being hit). -/
+theorem invalid_scale_unreachable (d : Dec) (decimals : Nat) :
+    rescaleToMantissa d decimals ≠ .error .scale := by
+  have h := rescale_scale_le d decimals
+  unfold rescaleToMantissa compensate
+  generalize rescale d decimals = v at *
+  by_cases h1 : v.scale < decimals
+  · rw [if_pos h1]
+    split <;> simp
+  · have h2 : v.scale = decimals := by omega
+    rw [if_neg h1, if_pos h2]
+    simp
+
 /-- No panic, integer → Decimal: `unsigned_fixed_to_decimal` / `signed_fixed_to_decimal` return
 `Some`/`None` for ALL inputs (after the fix of `convert_by_change_the_scale`). -/
 theorem no_panic_fixed_to_decimal (n decimals : Nat) (z : Int) :
